@@ -115,3 +115,19 @@ PROP_INFO["C10"] = {
     "outside": ["match() and search(): the regex crate cannot be compiled by Kani (ICE in regex_automata) - not claimed",
                 "function-call parsing and typing (grammar / C07)", "strings longer than 2 scalars", "nodelists longer than 3"],
 }
+
+# ----------------------------------------------------------------------------- C14
+_C14F = ["<serde_json::Value as Queryable>::extension_custom"]
+PROPS["C14"] = [
+    H("queryable", "c14_in_" + k, funcs=_C14F, symbolic="x payload; list [int, 1-byte string, [int]] truncated to n in 0..3, all payloads",
+      shape="x kind " + k, est=30) for k in ("int", "str", "null", "bool", "nested")
+] + [
+    H("queryable", "c14_sets_ints_ints", funcs=_C14F, symbolic="A: 0..2 ints, B: 0..3 ints (any i64)", shape="int arrays", est=40),
+    H("queryable", "c14_sets_ints_mixed", funcs=_C14F, symbolic="A: 0..2 ints, B: [int, string, [int]] truncated to 0..3", shape="int array vs mixed array", est=40),
+    H("queryable", "c14_non_array", funcs=_C14F, symbolic="array of 0..3 ints, scalar int", shape="non-array / missing arguments for all five functions", est=40),
+]
+PROP_INFO["C14"] = {
+    "bounds": "lists of 0..3 elements (ints any i64, 1-byte ASCII strings, one nested 1-element array), x of kind int/string/null/bool/nested array; A of 0..2 ints vs B of 0..3; non-array and missing arguments",
+    "outside": ["lists longer than 3", "objects as elements (serde_json::Map is a BTreeMap: out of reach)", "float elements / mixed int-float membership (unspecified by the crate's documentation)",
+                "function-call parsing (grammar)"],
+}
